@@ -72,6 +72,19 @@ func c17Faults(counts map[string]int, regs int, tier string) []ATEpisode {
 	for k := 1; k <= regs && k <= 2; k++ {
 		out = append(out, ATEpisode{Fault: fmt.Sprintf("register-fail#%d", k), TCRules: []simtc.Rule{{Code: simtc.TBranchRegister, Nth: k, Action: simtc.ActFail}}})
 	}
+	// a failing business statement makes the client end the branch with failure
+	// and roll it back in phase one: a second fault at those commands
+	for _, cl := range []string{"insert", "update", "delete"} {
+		if counts[cl] == 0 {
+			continue
+		}
+		for _, second := range []string{"xa-end", "xa-rollback"} {
+			for _, kind := range []string{"error", "badconn"} {
+				out = append(out, ATEpisode{Fault: fmt.Sprintf("db-error:%s#1+db-%s:%s#1", cl, kind, second), DBFaults: []DBFault{{Class: cl, Nth: 1, Kind: "error", Num: 1205}, {Class: second, Nth: 1, Kind: kind, Num: 1205}}})
+			}
+		}
+		break
+	}
 	return out
 }
 
@@ -294,7 +307,13 @@ func (r *atRun) checkC17(o *episodeObs, want simdb.Snapshot, ref []stmtRes) {
 	for _, sr := range o.stmts {
 		if sr.Err != nil {
 			anyErr = true
+			if strings.Contains(sr.Err.Error(), "PANIC out of") {
+				r.violate("C17", "error-surfaces", "panic-instead-of-error-"+cls, "episode %d (%s): branch %d statement %d panicked through database/sql instead of returning an error: %v", o.idx, ep.Fault, sr.Branch, sr.Idx, sr.Err)
+			}
 		}
+	}
+	if o.gerr != nil && strings.Contains(o.gerr.Error(), "panic") {
+		w.Sim.Probe("c17-global-transaction-saw-panic")
 	}
 	injected := false
 	for _, e := range j {
